@@ -15,14 +15,17 @@ from vlib.runner import Check, HypClause, Info, fail, guarded
 
 logging.disable(logging.CRITICAL)
 
-_HEX4 = re.compile(rb"\A[0-9A-Fa-f]{4}\Z")
+_HEX4 = re.compile(rb"\A[0-9A-Fa-f]{1,8}\Z")  # a checksum: hexadecimal digits only (normally four; other lengths denote another number)
+
+
+LENGTH_STYLES = ["append-digit", "prepend-digit", "drop-last", "drop-first", "append-two"]
 
 
 def analyse(raw: bytes):
     """Harness view of a readout's bytes (after the leading-whitespace strip the class documents).
 
     Returns dict: ident_ok (bool|None if undecodable), end (position of the '!' starting the last line or None),
-    checksum (int|None: the 4-hex-digit text after that '!', if it is exactly that), crc (CRC-16/ARC of '/'..'!').
+    checksum (int|None: the hexadecimal text after that '!', if it is 1..8 hex digits), crc (CRC-16/ARC of '/'..'!').
     """
     r = raw.lstrip()
     first_lf = r.find(b"\n")
@@ -170,8 +173,11 @@ def oracle(case) -> Info:
             "of-data-only": crc16_arc(body0[a0["data_start"] :]),
             "ccitt-init": crc16_arc(b"\xff\xff" + body0),
         }
-        v = {"zero": 0, "plus1": (a0["crc"] + 1) & 0xFFFF, "minus1": (a0["crc"] - 1) & 0xFFFF, "swapped": ((a0["crc"] & 0xFF) << 8) | (a0["crc"] >> 8), "drawn": val, "true": a0["crc"], **variants}[style]
+        v = 0 if style in LENGTH_STYLES else {"zero": 0, "plus1": (a0["crc"] + 1) & 0xFFFF, "minus1": (a0["crc"] - 1) & 0xFFFF, "swapped": ((a0["crc"] & 0xFF) << 8) | (a0["crc"] >> 8), "drawn": val, "true": a0["crc"], **variants}[style]
         text = f"{v:04X}"
+        if style in LENGTH_STYLES:  # the true checksum with a digit added or dropped: a different number (or the same one with a leading zero)
+            t4, dgt = f"{a0['crc']:04X}", "0123456789ABCDEF"[val % 16]
+            text = {"append-digit": t4 + dgt, "prepend-digit": dgt + t4, "drop-last": t4[:3], "drop-first": t4[1:], "append-two": t4 + dgt + "0123456789ABCDEF"[(val >> 4) % 16]}[style]
         case_style = mut[3]
         text = text.lower() if case_style == "lower" else ("".join(c.lower() if i % 2 else c for i, c in enumerate(text)) if case_style == "mixed" else text)
         raw = bytearray(bytes(raw[: end + 1]) + text.encode() + b"\r\n")
@@ -207,7 +213,7 @@ def oracle(case) -> Info:
                 raw = bytearray(bytes(raw[: a1["end"] + 1]) + f"{a1['crc']:04X}".encode() + b"\r\n")
     raw = bytes(raw)
     untouched = kind == "none" or (kind == "checksum" and mut[1] == "true")
-    if kind == "checksum" and mut[1] not in ("zero", "plus1", "minus1", "swapped", "drawn", "true") and analyse(bytes(raw))["checksum"] == a0["crc"]:
+    if kind == "checksum" and mut[1] not in ("zero", "plus1", "minus1", "swapped", "drawn", "true", *LENGTH_STYLES) and analyse(bytes(raw))["checksum"] == a0["crc"]:
         untouched = True  # the 'wrong' recipe happens to give the true CRC (e.g. CR LF variant of a CR LF readout)
     a = analyse(raw)
     classes = [f"mut:{kind}" + (f":{mut[1]}" if kind in ("checksum", "ident") else ""), f"access-first:{access}"]
@@ -255,7 +261,7 @@ def case_st(draw):
     if kind == "bitflip":
         mut = ("bitflip", draw(st.integers(0, 10**7)))
     elif kind == "checksum":
-        mut = ("checksum", draw(st.sampled_from(["zero", "zero", "plus1", "minus1", "swapped", "drawn", "true", "of-crlf-variant", "of-crlf-variant", "of-lf-variant", "without-bang", "without-slash", "of-data-only", "ccitt-init"])), draw(st.integers(0, 0xFFFF)), draw(st.sampled_from(["upper", "lower", "mixed"])))
+        mut = ("checksum", draw(st.sampled_from(["zero", "zero", "plus1", "minus1", "swapped", "drawn", "true", "of-crlf-variant", "of-crlf-variant", "of-lf-variant", "without-bang", "without-slash", "of-data-only", "ccitt-init"] + LENGTH_STYLES)), draw(st.integers(0, 0xFFFF)), draw(st.sampled_from(["upper", "lower", "mixed"])))
     elif kind == "ident":
         mut = ("ident", draw(st.sampled_from(["lower", "nobaud", "long", "ctrl", "digitman", "highbit", "highbit", "trailing-8bit-space", "class-boundary-char", "class-boundary-char"])), draw(st.booleans()), draw(st.integers(0, 63)))
     else:
@@ -279,7 +285,7 @@ def build() -> Check:
         assumptions=[
             "CRC reference = bit-serial CRC-16/ARC (vlib/ref_fcs.py).",
             "Before is_valid is asked, a drawn other part of the object's surface is used (identification_line, payload/as_bytes, expected_checksum, str, decode_p1_readout, AutoDecoder.decode_message, is_valid itself): the verdict must not depend on the order of access.",
-            "The end character is the '!' that starts the last line; the checksum claim is made only when the text after it is exactly 4 hex digits.",
+            "The end character is the '!' that starts the last line; the checksum claim is made when the text after it consists of 1..8 hexadecimal digits (normally four; the true checksum with a digit added or dropped is among the mutations).",
             "Identification well-formedness uses the harness's own, deliberately permissive pattern (any printable ID of <=16 chars).",
             "If is_valid raises, C04 neither passes nor fails the case (counted as is_valid:raised; raising is C14's subject).",
             "Non-ASCII data bytes are not required to invalidate a readout (the property does not say so).",
